@@ -3,7 +3,8 @@ Abstraction between the values of the translated date / period code (KlogV/Gen/G
 (KlogV/Model/Calendar.lean).  Core Lean only.
 -/
 import KlogV.Gen.GoCal
-import KlogV.GoSem.Abs
+import KlogV.GoSem.AbsBase
+import KlogV.Model.ConfigFile
 namespace KlogV
 open KlogV.Go
 
